@@ -159,6 +159,38 @@ def envelope_check(ctx, name, out, x, w, bias, extra=""):
                                         "shape_x": list(x.shape), "shape_w": list(w.shape)}))
 
 
+def unaligned_probe(ctx):
+    import subprocess
+    n = 250 if not ctx.thorough else 2500
+    p = subprocess.run([sys.executable, os.path.join(VERIF, "harness", "c07_views.py"), str(ctx.seed), str(n)], capture_output=True, text=True, timeout=3000)
+    last_start, done = None, False
+    for l in p.stdout.split("\n"):
+        if not l.startswith("{"):
+            continue
+        o = json.loads(l)
+        if "start" in o:
+            last_start = o["start"]
+        elif "done" in o:
+            done = True
+        else:
+            ctx.evaluations += 1
+            c = o["case"]
+            ctx.count(f"views:{c['F']}:act-{c['act']}:x-{c['x_layout']}:w-{c['w_layout']}"[:60])
+            ctx.nontriv(("views", json.dumps(c, sort_keys=True)))
+            if o["status"] != "ok":
+                kind = "raises" if o["status"].startswith("raises") else "differs"
+                sig = f"C07:view-operands:{kind}:act-{c['act']}:w-{c['w']}"
+                if kind == "differs" and o.get("what") == "non-finite" and o.get("f8xf8_f16"):
+                    sig = "C07:nonfinite-result:float8xfloat8-in-float16"
+                elif kind == "differs" and o.get("scale_product_subnormal"):
+                    sig = "C07:outside-envelope:scale-product-subnormal"
+                ctx.spec_failures.append((sig, {"case": c, "status": o["status"], "what": o.get("what") or o.get("message"),
+                                                                                          "replay": f"harness/c07_views.py {ctx.seed} {n}"}))
+    if not done:
+        ctx.spec_failures.append(("C07:view-operands:process-crashed", {"exit": p.returncode, "case": last_start, "stderr": p.stderr[-300:],
+                                                                        "replay": f"harness/c07_views.py {ctx.seed} {n}"}))
+
+
 def run(ctx):
     import optimum.quanto as q
     import optimum.quanto.library.qbytes_mm as mm
@@ -320,6 +352,9 @@ def run(ctx):
         if out.dtype != dt:
             ctx.spec_failures.append(("C07:output-dtype", {"got": str(out.dtype), "want": str(dt), "act": akind, "w": wqn}))
         envelope_check(ctx, "linear-realistic", out, x, w, bias)
+    # ---- operands that are views (expanded, transposed storage, slices, odd offsets), in a child process:
+    # the torch kernels behind the integer and int8-pack routes may crash the interpreter on them
+    unaligned_probe(ctx)
     # ---- correspondence
     got = run_driver(lines, weights=[len(l) * (int(l.split()[3].split(";")[2].split("x")[-1]) if False else 1) for l in lines])
     ctx.corr_cases += len(lines) + len(rlines)
